@@ -157,6 +157,9 @@ def collect(tier, seed):
     # engine executions under the deterministic scheduler with observers
     m = 900 if tier == "quick" else 30000
     et = EC.gen_tasks("mixed", m, seed + 16, opcode_frac=0.0, nmax=8)
+    # ... and runs that fail because a worker thread cannot be started while other workers are already executing calls
+    et += EC.gen_tasks("spawnfail", m // 6, seed + 17, opcode_frac=0.0, nmax=8)
+    et += EC.spawnfail_enum_tasks(seed + 18, 4 if tier == "quick" else 40)
     rng = random.Random(f"c15-{seed}")
     for t in et:
         t["observer"] = rng.choice(["rec", "rec", "composite"])
